@@ -86,6 +86,11 @@ def coq_closure(roots):
 def proof_stage(prop, tier, log):
     """Returns dict(obligations, discharged, axioms, problems, theorems)."""
     res = dict(obligations=0, discharged=0, axioms={}, problems=[], theorems=[], checker_cmd="")
+    # translator tie: regenerate coq/Gen/Consts.v from the Go source of the tree under test (idempotent)
+    rc0, out0, dt0 = sh(["sh", os.path.join(VERIF, "tools", "gen_consts.sh")], env=dict(GOENV, VERIF_REPO=REPO), timeout=600)
+    log.append("== gen_consts (%.1fs) rc=%d\n%s" % (dt0, rc0, out0[-3000:]))
+    if rc0 != 0:
+        res["problems"].append("gen_consts failed (coq/Gen/Consts.v removed): " + out0[-800:])
     coq_project()
     targets = [prop["props_file"][:-2] + ".vo"] + [t[:-2] + ".vo" for t in prop.get("extra_coq", [])]
     rc, out, dt = sh("make -j16 " + " ".join(targets), cwd=COQ, timeout=6000)
